@@ -1876,25 +1876,50 @@ impl World {
             block = id;
         }
         self.stat("long_chain");
-        let opened = catch_unwind(AssertUnwindSafe(|| Melda::new(st.dyn_adapter())));
-        match opened {
-            Err(_) => self.fail("C08", format!("opening a replica with a linear history of {} blocks aborted", n)),
-            Ok(Err(e)) => self.fail("C08", format!("a replica with a linear history of {} blocks cannot be opened: {}", n, msg_prefix(&e.to_string()))),
-            Ok(Ok(mut m)) => {
-                let heads: Vec<String> = m.get_anchors().iter().map(|a| a.to_string()).collect();
-                if heads != vec![block.clone()] || m.get_winner("x").ok() != Some(rev.clone()) {
-                    self.fail("C02", format!("a linear history of {} causally complete blocks is not applied entirely: heads {:?}", n, heads));
-                    self.fail("C08", format!("a linear history of {} causally complete blocks is not applied entirely: heads {:?}", n, heads));
-                }
-                // refresh with nothing new, and time travel to the middle of the chain
-                if catch_unwind(AssertUnwindSafe(|| m.refresh().is_ok())).unwrap_or(false) == false {
-                    self.fail("C08", format!("refresh of a replica with {} blocks failed or aborted", n));
-                }
-                let mid: BTreeSet<DeltaId> = m.get_anchors();
-                if catch_unwind(AssertUnwindSafe(|| m.reload_until(&mid).is_ok())).unwrap_or(false) == false {
-                    self.fail("C08", format!("reload_until to the heads of a replica with {} blocks failed or aborted", n));
+        // on a thread with the DEFAULT stack of a spawned thread (2 MiB): applications call the library from worker
+        // threads, not only from `main` with its 8 MiB
+        let adapter = st.dyn_adapter();
+        let (block_c, rev_c) = (block.clone(), rev.clone());
+        let handle = std::thread::Builder::new().stack_size(2 * 1024 * 1024).spawn(move || {
+            let mut fails: Vec<(&'static str, String)> = vec![];
+            let opened = catch_unwind(AssertUnwindSafe(|| Melda::new(adapter)));
+            match opened {
+                Err(_) => fails.push(("C08", format!("opening a replica with a linear history of {} blocks aborted", n))),
+                Ok(Err(e)) => fails.push(("C08", format!("a replica with a linear history of {} blocks cannot be opened: {}", n, msg_prefix(&e.to_string())))),
+                Ok(Ok(mut m)) => {
+                    let heads: Vec<String> = m.get_anchors().iter().map(|a| a.to_string()).collect();
+                    if heads != vec![block_c.clone()] || m.get_winner("x").ok() != Some(rev_c.clone()) {
+                        fails.push(("C02", format!("a linear history of {} causally complete blocks is not applied entirely: heads {:?}", n, heads)));
+                        fails.push(("C08", format!("a linear history of {} causally complete blocks is not applied entirely: heads {:?}", n, heads)));
+                    }
+                    // refresh with nothing new, time travel to the heads, a full reload, a read
+                    if !catch_unwind(AssertUnwindSafe(|| m.refresh().is_ok())).unwrap_or(false) {
+                        fails.push(("C08", format!("refresh of a replica with {} blocks failed or aborted", n)));
+                    }
+                    let heads_set: BTreeSet<DeltaId> = m.get_anchors();
+                    if !catch_unwind(AssertUnwindSafe(|| m.reload_until(&heads_set).is_ok())).unwrap_or(false) {
+                        fails.push(("C08", format!("reload_until to the heads of a replica with {} blocks failed or aborted", n)));
+                        fails.push(("C14", format!("reload_until to the heads of a replica with {} blocks failed or aborted", n)));
+                    }
+                    let after: Vec<String> = m.get_anchors().iter().map(|a| a.to_string()).collect();
+                    if after != vec![block_c.clone()] {
+                        fails.push(("C14", format!("after reload_until to the heads of a chain of {} blocks the heads are {:?}", n, after)));
+                    }
+                    if !catch_unwind(AssertUnwindSafe(|| m.reload().is_ok())).unwrap_or(false) {
+                        fails.push(("C08", format!("reload of a replica with {} blocks failed or aborted", n)));
+                    }
+                    let _ = catch_unwind(AssertUnwindSafe(|| m.get_value("x", None)));
                 }
             }
+            fails
+        });
+        match handle.map(|h| h.join()) {
+            Ok(Ok(fails)) => {
+                for (p, w) in fails {
+                    self.fail(p, w);
+                }
+            }
+            _ => self.fail("C08", format!("the thread working on a replica with {} blocks aborted", n)),
         }
     }
 
